@@ -1,6 +1,8 @@
 package main
 
 import (
+	"golang.org/x/tools/go/ssa"
+
 	"encoding/json"
 	"fmt"
 	"os"
@@ -24,7 +26,7 @@ type pkgRef struct {
 type PropDef struct {
 	ID       string
 	Pkgs     []pkgRef
-	Extra    func(c *checkCtx) []OblResult // non-lemma obligations (VCs, frame checks)
+	Extra    func(c *checkCtx, writeBaseline bool) []OblResult // non-lemma obligations (VCs, frame checks)
 	Replayer func(c *checkCtx, r *OblResult) *Replay
 	Trusted  []string
 	Assume   []string
@@ -202,9 +204,15 @@ func cmdCheck(id, tier string, writeBaseline bool) int {
 	}
 	wg.Wait()
 	if pd.Extra != nil {
-		all = append(all, pd.Extra(c)...)
+		all = append(all, pd.Extra(c, writeBaseline)...)
 	}
-	sort.Slice(all, func(i, j int) bool { return all[i].Name < all[j].Name })
+	sortKey := func(r OblResult) string {
+		if r.Kind == "lemma" || r.Func == "" {
+			return "0" + r.Name
+		}
+		return fmt.Sprintf("1%s\x00%06d", r.Func, r.Order)
+	}
+	sort.SliceStable(all, func(i, j int) bool { return sortKey(all[i]) < sortKey(all[j]) })
 
 	if writeBaseline {
 		var names []string
@@ -223,6 +231,7 @@ func cmdCheck(id, tier string, writeBaseline bool) int {
 	}
 
 	base := loadBaseline(id)
+	rematch(all, id, base)
 	known := loadKnown()
 	isKnown := func(name string) *knownFinding {
 		for i := range known {
@@ -233,6 +242,7 @@ func cmdCheck(id, tier string, writeBaseline bool) int {
 		return nil
 	}
 	violations := 0
+	notClaimed := 0
 	discharged := 0
 	var undecided, unsupportedL, knownHit []string
 	seen := map[string]bool{}
@@ -257,6 +267,10 @@ func cmdCheck(id, tier string, writeBaseline bool) int {
 			continue
 		}
 		inBase := base[r.Name]
+		if r.Status == "skipped" {
+			notClaimed++
+			continue
+		}
 		if r.Status == "unsupported" && !inBase {
 			unsupportedL = append(unsupportedL, r.Name+": "+r.Detail)
 			continue
@@ -371,7 +385,7 @@ func writeEvidence(c *checkCtx, id, tier string, seed int64, all []OblResult, di
 	}
 	claimed := 0
 	for _, r := range all {
-		if r.Status != "unsupported" && r.Status != "unbound" {
+		if r.Status != "unsupported" && r.Status != "unbound" && r.Status != "skipped" {
 			claimed++
 		}
 	}
@@ -427,4 +441,126 @@ func writeEvidence(c *checkCtx, id, tier string, seed int64, all []OblResult, di
 	os.MkdirAll(filepath.Join(verifRoot, "evidence"), 0o755)
 	data, _ := json.MarshalIndent(ev, "", " ")
 	os.WriteFile(filepath.Join(verifRoot, "evidence", id+".json"), append(data, '\n'), 0o644)
+}
+
+// baselineOrder returns the committed inventory in its stored order.
+func baselineOrder(id string) []string {
+	data, err := os.ReadFile(filepath.Join(verifRoot, "baseline", id+".json"))
+	if err != nil {
+		return nil
+	}
+	var b baselineFile
+	if json.Unmarshal(data, &b) != nil {
+		return nil
+	}
+	return b.Obligations
+}
+
+func oblGroup(name string) string {
+	// function#kind
+	if i := strings.Index(name, ":"); i > 0 && strings.Contains(name[:i], "#") {
+		return name[:i]
+	}
+	return ""
+}
+
+// rematch keeps the identity of an obligation whose site text was edited in
+// place: when a function has the same number of obligations of a kind as in
+// the inventory, unmatched ones are paired by position (DESIGN 5.2(4)).
+func rematch(all []OblResult, id string, base map[string]bool) {
+	if base == nil {
+		return
+	}
+	order := baselineOrder(id)
+	cur := map[string][]int{}
+	for i, r := range all {
+		if g := oblGroup(r.Name); g != "" && r.Kind != "lemma" {
+			cur[g] = append(cur[g], i)
+		}
+	}
+	old := map[string][]string{}
+	for _, n := range order {
+		if g := oblGroup(n); g != "" {
+			old[g] = append(old[g], n)
+		}
+	}
+	for g, idxs := range cur {
+		names := old[g]
+		present := map[string]bool{}
+		for _, i := range idxs {
+			present[all[i].Name] = true
+		}
+		var freeOld []string
+		for _, n := range names {
+			if !present[n] {
+				freeOld = append(freeOld, n)
+			}
+		}
+		var freeCur []int
+		for _, i := range idxs {
+			if !base[all[i].Name] {
+				freeCur = append(freeCur, i)
+			}
+		}
+		// only when nothing was added or removed: same multiset size of unmatched on both sides
+		if len(freeOld) == 0 || len(freeOld) != len(freeCur) {
+			continue
+		}
+		for k, i := range freeCur {
+			all[i].Detail = strings.TrimSpace(all[i].Detail + " (site text changed; was " + freeOld[k] + ")")
+			all[i].Renamed = all[i].Name
+			all[i].Name = freeOld[k]
+		}
+	}
+}
+
+// sweepFuncs verifies every function of the listed packages in VC mode. In
+// check mode only the obligations of the committed inventory (and their
+// positional re-matches) are sent to the solvers; the others are listed as
+// not claimed.
+func sweepFuncs(c *checkCtx, refs []pkgRef, writeBaseline bool, kinds map[string]bool) []OblResult {
+	base := loadBaseline(c.prop.ID)
+	var all []OblResult
+	var mu sync.Mutex
+	var wg sync.WaitGroup
+	sem := make(chan struct{}, 6)
+	for _, pr := range refs {
+		prog, err := c.prog(pr.Module)
+		if err != nil {
+			fmt.Fprintf(os.Stderr, "govc: cannot load %s: %v\n", pr.Module, err)
+			os.Exit(2)
+		}
+		pp := prog.PPkgs[pr.Path]
+		if pp == nil {
+			continue
+		}
+		specs := c.specs[pr.Path]
+		if specs == nil {
+			var err error
+			specs, err = LoadSpecs(prog.Dir+"/"+relDir(pr.Module, pr.Path), pr.Path, pp.Name)
+			if err != nil {
+				fmt.Fprintln(os.Stderr, "govc:", err)
+				os.Exit(2)
+			}
+			c.specs[pr.Path] = specs
+		}
+		for _, f := range prog.FuncsOfPackage(pr.Path) {
+			wg.Add(1)
+			go func(f *ssa.Function) {
+				defer wg.Done()
+				sem <- struct{}{}
+				defer func() { <-sem }()
+				var only map[string]bool
+				if !writeBaseline && base != nil && c.tier != "thorough" {
+					only = base
+				}
+				rs := verifyFuncFiltered(prog, specs, f, c.tier, c, kinds, only)
+				mu.Lock()
+				all = append(all, rs...)
+				mu.Unlock()
+			}(f)
+		}
+	}
+	wg.Wait()
+	return all
 }
